@@ -541,10 +541,12 @@ class DiHypergraph:
         >>> DH.add_edge(([3, 4], set()), idx='myedge')
         """
         if isinstance(members, (tuple, list)):
-            tail = members[0]
-            head = members[1]
+            tail = list(members[0])
+            head = list(members[1])
         else:
             raise XGIError("Directed edge must be a list or tuple!")
+        if None in set(tail) or None in set(head):
+            raise XGIError("None cannot be a node")
 
         uid = next(self._edge_uid) if idx is None else idx
 
@@ -688,7 +690,11 @@ class DiHypergraph:
                     raise XGIError("Directed edge must be a list or tuple!")
 
                 try:
-                    self._edge[idx] = {"in": set(tail), "out": set(head)}
+                    tail, head = list(tail), list(head)
+                    edge = {"in": set(tail), "out": set(head)}
+                    if None in edge["in"] or None in edge["out"]:
+                        raise XGIError("None cannot be a node")
+                    self._edge[idx] = edge
                 except TypeError as e:
                     raise XGIError("Invalid ebunch format") from e
 
@@ -750,9 +756,12 @@ class DiHypergraph:
                 warn(f"uid {idx} already exists, cannot add edge {members}.")
             else:
                 try:
-                    tail = members[0]
-                    head = members[1]
-                    self._edge[idx] = {"in": set(tail), "out": set(head)}
+                    tail = list(members[0])
+                    head = list(members[1])
+                    edge = {"in": set(tail), "out": set(head)}
+                    if None in edge["in"] or None in edge["out"]:
+                        raise XGIError("None cannot be a node")
+                    self._edge[idx] = edge
                 except TypeError as e:
                     raise XGIError("Invalid ebunch format") from e
 
